@@ -61,6 +61,10 @@ def fold(docs, strict, ro=None):
     return str(ro), nfail, other, None, fails_at, ro
 
 
+def _fname(n):
+    return f'f{n:03d}.mos.xml' if n % 4 != 1 else ('f[%d].mos.xml', 'f*%d.mos.xml', 'f?%d.mos.xml')[n % 3] % n
+
+
 def build_collection(case, workdir):
     docs, order, source = case['docs'], case['order'], case['source']
     supplied = [docs[i] for i in order]
@@ -83,7 +87,8 @@ def build_collection(case, workdir):
         os.makedirs(workdir, exist_ok=True)
         paths = []
         for n, d in enumerate(supplied):
-            p = os.path.join(workdir, f'f{n:03d}.mos.xml')
+            # every fourth file name holds a shell metacharacter (a literal '[', '*', '?')
+            p = os.path.join(workdir, _fname(n))
             with open(p, 'wb') as f:
                 f.write(raw(n, d))
             paths.append(p)
@@ -119,7 +124,7 @@ def judge_case(case):
             if fake is not None:
                 fake.buckets['bkt'][f'pfx/k{n:03d}.mos.xml'] = b'no longer <xml'
             else:
-                with open(os.path.join(workdir, f'f{n:03d}.mos.xml'), 'wb') as f:
+                with open(os.path.join(workdir, _fname(n)), 'wb') as f:
                     f.write(b'no longer <xml')
         got_exc = None
         with warnings.catch_warnings(record=True) as rec:
